@@ -249,6 +249,15 @@ Delete(i) == /\ CanOp /\ Exists(data[i])
              /\ UNCHANGED <<tree, bk, lock, dirs, pc, sel, fi, wr, mem, snap, donebk, crashes, creates, nmod>>
              /\ Log(<<i>>)
 
+\* the environment loses a backup copy (careless clean-up): afterwards the consistency scan must not list the backup
+Damage(i) == /\ CanOp /\ Exists(bk[i])
+             /\ bk' = [bk EXCEPT ![i] = Absent]
+             /\ donebk' = (IF donebk # <<>> THEN <<bk', lock>> ELSE donebk)
+             /\ nops' = nops + 1
+             /\ lastop' = Op("damage", <<>>, 0, "ok", "") /\ prevop' = lastop /\ pre' = data
+             /\ UNCHANGED <<tree, data, lock, dirs, pc, sel, fi, wr, mem, snap, crashes, creates, nmod>>
+             /\ Log(<<i>>)
+
 \* BackupManager.get_task: 'task_' + t is a substring of the base name
 RSel(i, T) == T = <<>> \/ (F(i).us /\ F(i).tk \in Range(T))
 RestoreMap(T, d) == [i \in Idx |-> IF i \in Range(lock.rec) /\ RSel(i, T) THEN bk[i] ELSE d[i]]
@@ -291,11 +300,12 @@ Remodel(T, o) == /\ CanOp
 
 ModifyAny == \E i \in Idx : Modify(i)
 DeleteAny == \E i \in Idx : Delete(i)
+DamageAny == \E i \in Idx : Damage(i)
 RestoreAny == \E T \in TaskArgs : Restore(T)
 RemodelAny == \E T \in TaskArgs, o \in OpsIds : Remodel(T, o)
 Next == \/ Start \/ MkBk \/ MkRoot \/ MkDir \/ CopyOpen \/ CopyWrite \/ CopyMeta
         \/ LockOpen \/ LockWrite \/ LockClose \/ Crash \/ Reopen
-        \/ ModifyAny \/ DeleteAny \/ RestoreAny \/ RemodelAny
+        \/ ModifyAny \/ DeleteAny \/ DamageAny \/ RestoreAny \/ RemodelAny
 Spec == Init /\ [][Next]_vars
 
 ----------------------------------------------------------------------
@@ -308,11 +318,11 @@ TypeOK == /\ \A i \in Idx : IsCont(data[i]) /\ IsCont(bk[i])
 NeverHalfValid == Listed => \A i \in Range(Now.rec) : bk[i].k = Chunks /\ bk[i] = snap[i]
 \* once listed, a backup never changes, whatever runs afterwards (incl. creating again under the same name)
 NoOverwrite == donebk # <<>> => <<bk, lock>> = donebk
-CreatedIsListed == donebk # <<>> => Listed
+CreatedIsListed == lastop.res = "created" => Listed
 \* restoring everything gives back the backed-up bytes, whatever happened to the data files
 RestoreIdentity == lastop.op = "restore" /\ lastop.res = "ok" /\ lastop.t = <<>>
                       => \A i \in Range(Now.rec) : data[i] = snap[i] /\ data[i].k = Chunks
-RestoreWorks == lastop.op = "restore" /\ donebk # <<>> /\ Now.rec # <<>> => lastop.res = "ok"
+RestoreWorks == lastop.op = "restore" /\ Listed /\ Now.rec # <<>> => lastop.res = "ok"
 \* restoring tasks touches only files of those tasks (either spelling of the task in the name), and only recorded ones
 OfTask(i, T) == F(i).tk \in Range(T)
 RestoreTasksOnlyThose == lastop.op = "restore" /\ lastop.t # <<>>
